@@ -513,16 +513,23 @@ let process_op_line (st: hstate ref) (line: string) ~(terminated: bool) =
        | HKey (false, m, _) ->
          (match !m with KT s -> compare_tree_snap !cur_coll (fun e -> e.kk) (parse_tree_snap kent_of 3 snap) s.kroot s.kpl | _ -> ())
        | HSeg (m, _, (lo, hi)) ->
-         (* C14 evaluated directly on what the implementation built *)
-         let len = hi - lo + 1 in
+         (* C14 evaluated directly on what the implementation built; arithmetic on the extracted Z
+            (domain lengths reach 2^62, beyond OCaml's native integers) *)
+         let zlo = z_of_int lo and zhi = z_of_int hi in
+         let zlen = Model.Z.add (Model.Z.sub zhi zlo) (z_of_int 1) in
+         let zlt a b = Model.Z.ltb a b and zle a b = Model.Z.leb a b in
          stat "layouts";
-         if (ans = "none") <> (len <= 16) then mismatch "LAYOUTSPEC" ~impl:(Printf.sprintf "new over %d points -> %s" len ans) ~model:"failure exactly for 16 or fewer points";
+         if (ans = "none") <> (zle zlen (z_of_int 16)) then mismatch "LAYOUTSPEC" ~impl:(Printf.sprintf "new over [%d, %d] -> %s" lo hi ans) ~model:"failure exactly for 16 or fewer points";
          (match words snap with
           | ["L"; mn; mx; sc; cnt] ->
             let mn = int_of_string mn and mx = int_of_string mx and sc = int_of_string sc and cnt = int_of_string cnt in
-            let pow k = 1 lsl k in
-            if mn <> lo || mx <> hi || sc < 0 || sc > 57 || 32 * pow sc < len || (sc > 0 && 32 * pow (sc - 1) >= len)
-               || cnt <> ((hi - lo) asr sc) + 32 || ((hi - lo) asr sc) > 31 then
+            let shr a k = Model.Z.shiftr a (z_of_int k) in
+            let lm1 = Model.Z.sub zlen (z_of_int 1) in
+            let top = shr (Model.Z.sub zhi zlo) sc in
+            (* 32 * 2^sc >= len  <=>  (len-1) >> sc < 32 ; smallest: sc = 0 or (len-1) >> (sc-1) >= 32 *)
+            if mn <> lo || mx <> hi || sc < 0 || sc > 58 || not (zlt (shr lm1 sc) (z_of_int 32))
+               || (sc > 0 && zlt (shr lm1 (sc - 1)) (z_of_int 32))
+               || Model.Z.compare (z_of_int cnt) (Model.Z.add top (z_of_int 32)) <> Eq || not (zle top (z_of_int 31)) then
               mismatch "LAYOUTSPEC" ~impl:snap ~model:"buckets of the smallest power-of-two width for which 32 cover the domain; one place per heap node up to bucket(hi)"
           | _ -> ());
          let model = (match !m with None -> "none" | Some _ -> "ok") in
